@@ -352,6 +352,8 @@ def shquote(s):
 def classify(h, r):
     """Map a harness result to: pass | violation | inconclusive(reason)."""
     if r["status"] == "success":
+        if any(c["status"] == "ERROR" for c in r["covers"]):
+            return "inconclusive", "oom"
         bad = [c for c in r["covers"] if c["status"] != "SATISFIED"]
         if bad:
             return "inconclusive", "vacuous: cover not satisfied: " + "; ".join(c["desc"] for c in bad)
